@@ -103,16 +103,20 @@ theorem makeKeys_under {hs : Hashes} {v1 : Bool} {p mk : List Char} {ks : List S
     intro x hx; simp at hx; subst hx; exact u2
   | true =>
     simp only [if_true] at h3
-    obtain ⟨k1, h1, h4⟩ := bind_ok h3
-    have u1 := makeV1Key_under h1
-    split at h4
-    · simp [pure, Except.pure] at h4; subst h4
+    obtain ⟨sfx0, _, h3b⟩ := bind_ok h3
+    split at h3b
+    · obtain ⟨k1, h1, h4⟩ := bind_ok h3b
+      have u1 := makeV1Key_under h1
+      split at h4
+      · simp [pure, Except.pure] at h4; subst h4
+        intro x hx; simp at hx; subst hx; exact u2
+      · simp [pure, Except.pure] at h4; subst h4
+        intro x hx; simp at hx
+        rcases hx with rfl | rfl
+        · exact u2
+        · exact u1
+    · simp [pure, Except.pure] at h3b; subst h3b
       intro x hx; simp at hx; subst hx; exact u2
-    · simp [pure, Except.pure] at h4; subst h4
-      intro x hx; simp at hx
-      rcases hx with rfl | rfl
-      · exact u2
-      · exact u1
 
 theorem notIn_of_not_under {hs : Hashes} {v1 : Bool} {p mk : List Char} {ks : List String} {k : String}
     (h : makeKeys hs v1 p mk = .ok ks) (hk : underPrefix p k = false) : notIn ks k = true := by
@@ -207,6 +211,9 @@ theorem bodyAnn_pseudo (orig : J) (l : Kvs) : bodyAnn (withOwners orig (withKind
     rw [lookup_insert_same]
     simp only []
     rw [lookup_insert_other _ _ (by decide : "annotations" ≠ "ownerReferences"), metaKvs_congr hk]
+    cases lookup "annotations" (metaKvs l) with
+    | none => rfl
+    | some v => cases v <;> rfl
 
 theorem src_pseudo (orig : J) {l : Kvs} {L : Option J} {A : Option Kvs} (h : lookup "metadata" l = N L A) :
     Src (withOwners orig (withKind orig l)) L A := by
